@@ -32,6 +32,7 @@ ASSUMPTIONS = [
     "input alphabet is Latin-1 (what the transports' latin1 decode can produce)",
     "'imitating' junk = junk that contributes or completes an occurrence of '<'+registered tag name; nodelay is only demanded for non-imitating junk",
     "resync is only demanded with a threshold enabled, for valid messages no longer than the threshold, after a filler longer than the threshold",
+    "elements that get truncated or corrupted are spelled without CDATA sections and comments (an opened one absorbs what follows up to its terminator - XML semantics, not a framing fault); intact messages use them",
     "watchdog budget 20000+1000*(R+1)+300*(G+1)*(R+1) line events per process() call (G,R = number of > and < buffered at entry), capped at 5e7",
 ]
 QUICK_RUNS = 8000
@@ -71,7 +72,9 @@ def build(scen, trunc_at=None):
             t = " " * st["n"] + ("\n" if tty else "")
             faults["filler"] = faults.get("filler", 0) + 1
         elif k in ("trunc", "corrupt"):
-            full = spell(st["spec"], st["style"])
+            # (no CDATA sections or comments in an element that is about to be damaged: cutting one open makes XML itself
+            # absorb whatever follows up to the next "]]>" / "-->", so the messages after it would not be messages any more)
+            full = spell(st["spec"], dict(st["style"], cdata=False, comments=False))
             s, e = _element_span(full)
             el = full[s:e]
             if k == "trunc":
